@@ -53,6 +53,7 @@ func rigAKA() {
 
 func runAKAHistory(hi int, h hmap) {
 	k, op, amf := hx(str(h, "k")), hx(str(h, "op")), hx(str(h, "amf"))
+	op0 := op
 	sqnHE, sqnUE := hx(str(h, "sqn_he")), hx(str(h, "sqn_ue"))
 	fail := func(oi int, rule, site, format string, a ...interface{}) {
 		viol(hi, rule, site, fmt.Sprintf("op %d: ", oi)+fmt.Sprintf(format, a...), hmap{"op": oi})
@@ -99,6 +100,29 @@ func runAKAHistory(hi int, h hmap) {
 		kind := str(op, "op")
 		var ch challenge
 		fault := str(op, "fault")
+		if kind == "badkey" {
+			// a malformed K (15 or 17 octets) is refused; the next exchanges go on as if nothing had happened
+			bk := append(append([]byte{}, k...), 0x55)
+			if num(op, "short", 0) == 1 {
+				bk = bk[:15]
+			}
+			func() {
+				defer func() {
+					if p := recover(); p != nil {
+						fail(oi, "aka.panic", "badkey", "panic on a malformed K: %v", p)
+					}
+				}()
+				ma, ms := make([]byte, 8), make([]byte, 8)
+				if e := milenage.F1(in("opc", opc), in("badk", bk), in("rnd", hx(str(op, "rand"))), in("sqn", sqnHE), in("amf", amf), ma, ms); e == nil {
+					fail(oi, "aka.badkey-accepted", "F1", "a K of %d octets was accepted", len(bk))
+				}
+				if _, e := milenage.GenerateOPC(in("badk", bk), in("op", op0)); e == nil {
+					fail(oi, "aka.badkey-accepted", "GenerateOPC", "a K of %d octets was accepted", len(bk))
+				}
+				ins = ins[:0]
+			}()
+			continue
+		}
 		switch kind {
 		case "challenge":
 			rnd := hx(str(op, "rand"))
@@ -193,6 +217,21 @@ func runAKAHistory(hi int, h hmap) {
 			rauts := crypto.AUTS(k, refOPc, rnd, sqnUE)
 			if !bytes.Equal(auts, rauts) {
 				fail(oi, "aka.auts", site, "AUTS %x, TS 33.102 6.3.3 gives %x", auts, rauts)
+			}
+			// another subscriber's challenge is generated between the UE's resynchronisation and the
+			// network-side AUTS check (a home environment serves many subscribers)
+			if il, _ := op["interleave"].(bool); il {
+				ok2, oopc2, rnd2 := hx(str(op, "k2")), hx(str(op, "opc2")), hx(str(op, "rand2"))
+				if len(ok2) == 16 && len(oopc2) == 16 && len(rnd2) == 16 {
+					a2, i2, c2, k2b, r2 := make([]byte, 16), make([]byte, 16), make([]byte, 16), make([]byte, 6), make([]byte, 8)
+					l2 := uint(8)
+					sq2 := []byte{0, 0, 0, 0, 1, 2}
+					milenage.MilenageGenerate(in("opc", oopc2), in("amf", amf), in("k", ok2), in("sqn", sq2), in("rnd", rnd2), a2, i2, c2, k2b, r2, &l2)
+					checkIns(oi, "MilenageGenerate")
+					if want := crypto.AUTN(ok2, oopc2, rnd2, sq2, amf); !bytes.Equal(a2, want) {
+						fail(oi, "aka.generate", "MilenageGenerate", "interleaved subscriber: AUTN %x, TS 35.206 gives %x", a2, want)
+					}
+				}
 			}
 			// network side
 			out := make([]byte, 6)
